@@ -16,7 +16,9 @@ Dy0 == DyInt(0)
 Dy1 == DyInt(1)
 \* wire form [s, e, limb...] of a finite float; [] (NaN) and [s] (infinity) are not dyadics
 IsFiniteWire(v) == Len(v) >= 2
-DecDy(v) == Dy(Z(v[1], SubSeq(v, 3, Len(v))), v[2])
+\* (a NaN or an infinity decodes to the sentinel 2^3000, far outside every tolerance and every recorded magnitude: a relation that
+\* compares it with an exact value fails -- the event is rejected -- instead of TLC stopping on an ill-formed value)
+DecDy(v) == IF Len(v) >= 2 THEN Dy(Z(v[1], SubSeq(v, 3, Len(v))), v[2]) ELSE Dy(Z1, 3000)
 
 DyMinE(a, b) == IF a.e <= b.e THEN a.e ELSE b.e
 DyAt(a, e) == ZMul(a.z, ZPow2(a.e - e))      \* a as an integer multiple of 2^e, e <= a.e
